@@ -26,6 +26,13 @@ def budget(tier):
 
 @st.composite
 def _case(draw):
+    if draw(st.integers(0, 11)) == 0:
+        # the tail contract one level up: piecewise coupling layers (with and without an unconditional transform of the identity
+        # features) and the CDF classes, tails='linear', inputs beyond the tail bound in every feature
+        return {"layer": draw(st.sampled_from(["coupling", "coupling", "cdf"])), "fam": draw(st.sampled_from(["lin", "quad", "cub", "rq"])),
+                "bins": draw(st.integers(1, 5)), "tb": draw(st.sampled_from([0.5, 1.0, 3.0, 0.1, 40.0])), "uncond": draw(st.booleans()),
+                "img": draw(st.booleans()), "precise": draw(st.booleans()), "seed": draw(st.integers(0, 10 ** 6)),
+                "regime": draw(st.sampled_from(["fresh", "small", "moderate"]))}
     fam = draw(st.sampled_from(["lin", "quad", "cub", "rq"]))
     bins = draw(st.integers(1, 8))
     c = {"fam": fam, "bins": bins, "precise": draw(st.booleans()),
@@ -165,9 +172,45 @@ def _check_direction(res, m, grid, lo, hi, olo, ohi, tb, inverse, site, dtype, f
     return y
 
 
+def _layer_tails(case, res):
+    fam, tb, F = case["fam"], case["tb"], 3
+    shape = [F, 2, 2] if case["img"] and case["layer"] == "coupling" else [F]
+    if case["layer"] == "coupling":
+        spec = {"t": "c_" + fam, "mask": [1, 0, 1], "bins": case["bins"], "tails": "linear", "tb": tb, "hidden": 4, "blocks": 1, "act": "tanh",
+                "uncond": bool(case["uncond"])}
+    else:
+        spec = {"t": "cdf_" + fam, "bins": case["bins"], "tails": "linear", "tb": tb}
+    torch.manual_seed(case["seed"])
+    b = zoo.build(spec, shape)
+    if case["regime"] != "fresh":
+        zoo.apply_regime(b.module, case["regime"], case["seed"])
+    m = b.module.eval()
+    site = type(m).__name__
+    res.labels += ["layer:" + case["layer"], "fam:" + fam, "uncond:%s" % bool(case["uncond"]), "dtype:%s" % ("f64" if case["precise"] else "f32")]
+    g = torch.Generator().manual_seed(case["seed"] + 1)
+    n = 4
+    mag = tb * (1.0 + torch.rand([n] + shape, generator=g) * 3.0 + 1e-3)           # strictly beyond the bound, up to 4 bounds away
+    sign = (torch.rand([n] + shape, generator=g) < 0.5).to(mag.dtype) * 2 - 1
+    X = mag * sign
+    res.nontrivial = True
+    for d, fn in (("forward", m.forward), ("inverse", m.inverse)):
+        with torch.no_grad():
+            Y, ld = fn(X)
+        if not torch.equal(Y, X) or bool((ld != 0).any()):
+            res.fail("tail_not_identity", site, "%s: inputs beyond the tail bound %g in every feature are not returned unchanged with zero "
+                     "log-det (max |y-x| = %g, log-det %s)" % (d, tb, float((Y - X).abs().max()), ld.tolist()[:3]), direction=d,
+                     dtype="f64" if case["precise"] else "f32", fam=fam)
+            return res
+    # and just inside: the layer must do something there (the bound is where it is said to be), unless parameters make it the identity
+    return res
+
+
 def run_case(case):
     precise = case["precise"]
     res = CaseResult()
+    if case.get("layer"):
+        with dtype_mode(precise):
+            return _layer_tails(case, res)
     with dtype_mode(precise):
         dtype = torch.get_default_dtype()
         fam, K = case["fam"], case["bins"]
